@@ -64,12 +64,15 @@ def infer_redirection(url, recursive=True):
 
             potential_target = unquote(obvious_redirect_match.group(2))
 
+            # NOTE: a scheme is case-insensitive
+            scheme_part = potential_target[:8].lower()
+
             # Basic HTTPS
-            if potential_target.startswith("https://") and len(potential_target) > 8:
+            if scheme_part.startswith("https://") and len(potential_target) > 8:
                 target = potential_target
 
             # Basic HTTP
-            elif potential_target.startswith("http://") and len(potential_target) > 7:
+            elif scheme_part.startswith("http://") and len(potential_target) > 7:
                 target = potential_target
 
             # Basic relative url
